@@ -680,5 +680,7 @@ WHERE
 	// Query to list index columns.
 	indexColumnsQuery = "SELECT name, desc FROM pragma_index_xinfo('%s') WHERE key = 1 ORDER BY seqno"
 	// Query to list table foreign-keys.
-	fksQuery = "SELECT `id`, `from`, `to`, `table`, `on_update`, `on_delete` FROM pragma_foreign_key_list('%s') ORDER BY id, seq"
+	// A foreign-key that is defined without a column list (e.g. REFERENCES users) refers to the primary-key of
+	// the parent table, and its "to" column is reported as NULL.
+	fksQuery = "SELECT f.`id`, f.`from`, COALESCE(f.`to`, (SELECT p.`name` FROM pragma_table_info(f.`table`) AS p WHERE p.`pk` = f.`seq` + 1), ''), f.`table`, f.`on_update`, f.`on_delete` FROM pragma_foreign_key_list('%s') AS f ORDER BY f.`id`, f.`seq`"
 )
